@@ -62,6 +62,7 @@ func TestZsimC09Http(t *testing.T) {
 
 func c09HttpRun(r *zsim.Run) {
 	timex.ZsimReset()
+	sheddingStat = nil // package-level, created lazily: forget the one of an earlier run
 	o, f := r.Ops, r.Fault
 	sh := &c09Shedder{reject: func() bool { return f.Intn(5) == 4 }}
 	metrics := stat.NewMetrics(fmt.Sprintf("c09-%d", r.Seed))
